@@ -23,6 +23,24 @@ add("C02", "exploration",
     "Trusts compat(P)/M_fold/plain-name tables of DESIGN.md A.1 (written from the option documentation and the property statement), the reference reader, and the float rule of C01.",
     "DESIGN.md section 4/C02")
 
+add("C05", "exploration",
+    "grammar-based literal generation judged by an exact bignum oracle (correct rounding / 2^-50 tolerance / overflow), both feature configurations",
+    "Exploration: literals are generated from the two grammars of the statement, aimed at the regions it names (64-bit boundaries in four radixes, 400-digit strings, exponent-without-fraction forms, exact halfway cases and their neighbours, subnormals, the overflow threshold and band, absurd exponents); the verdict comes from exact rational arithmetic on a 150-line bignum that is itself cross-checked against u128 and str::parse::<f64> at start-up. The whole 2^k/2^k+-1 table (k <= 66, 4 radixes, 3 sign spellings) is enumerated in every run. Both builds (with and without fast-float-parsing) are run.",
+    "Trusts M_big (self-checked), Rust's dec2flt as correctly rounded (only used for the cross-check and in messages), and the reading of '|exponent| <= 22' described in DESIGN.md A.4.",
+    "DESIGN.md section 4/C05")
+
+add("C15", "exploration",
+    "model-based property testing: every list constructor and traversal against a Vec model",
+    "Exploration: generated (elements, tail, indices) triples and association lists are built through every constructor and walked through every traversal, conversion and index form; each result is compared with a Vec-based model computed independently of the cons-cell code, including the None,tail,None protocol of list_iter with peek/is_empty at every step and lookups on non-list targets under catch_unwind.",
+    "Trusts the model (harness/src/props/c15.rs) and Value's own == for key equality (mirrored structurally).",
+    "DESIGN.md section 4/C15")
+
+add("C20", "exploration",
+    "property-based algebraic checks of predicates, conversions and mixed-type comparisons against the payload",
+    "Exploration: arbitrary values for the kind/accessor laws; boundary-biased integers of all eight widths (i8/u8/i16/u16 exhaustively), f32/f64 including non-finite values, strings, chars, bools, bytes, pairs and vectors for the conversion laws; (value, primitive) pairs constructed to be equal, off by one, cross-sign and cross-kind for the comparison law in all four operand forms.",
+    "The expected answers are computed from the generated payload, not from the library.",
+    "DESIGN.md section 4/C20")
+
 NOT_YET = {}
 
 def main():
